@@ -131,7 +131,27 @@ def guard_atoms(body, bb, prog=None, assume=(), _depth=0):
     return out
 
 
+def _canon(prog, a):
+    """`x == Enum::UnitVariant` (derived PartialEq on an enum) is the same test as `matches!(x, Enum::UnitVariant)`"""
+    if a[0] != "eq" or prog is None:
+        return a
+    x, y = a[1]
+    for (p, q) in ((x, y), (y, x)):
+        if isinstance(q, tuple) and q and q[0] == "agg" and len(q) > 3 and not q[3]:
+            adt = prog.adts.get(q[1])
+            if adt and adt.get("is_enum"):
+                names = [v["name"] for v in adt["variants"]]
+                if q[2] in names:
+                    vs = frozenset([q[2]]) if a[2] else frozenset(n for n in names if n != q[2])
+                    return ("variant", (p, vs), True) + tuple(a[3:])
+    return a
+
+
 def _edge_atoms(body, s, vals, dterm, dty, prog):
+    return [_canon(prog, a) for a in _edge_atoms0(body, s, vals, dterm, dty, prog)]
+
+
+def _edge_atoms0(body, s, vals, dterm, dty, prog):
     out = []
     if dty == "bool":
         # arms: value 0 -> false ; else -> true
